@@ -108,9 +108,17 @@ int layout::set_property(const char *name, convertable *src)
 		return MPT_ERROR(BadOperation);
 	}
 	if (!strcasecmp(name, "alias") || !strcasecmp(name, "name")) {
+		if (!src) {
+			mpt_string_set(&_alias, 0, 0);
+			return 0;
+		}
 		return mpt_string_pset(&_alias, src);
 	}
 	if (!strcasecmp(name, "font")) {
+		if (!src) {
+			mpt_string_set(&_font, 0, 0);
+			return 0;
+		}
 		return mpt_string_pset(&_font, src);
 	}
 	return BadArgument;
